@@ -21,10 +21,15 @@ def exc_str(ex):
     return f"{type(ex).__name__}: {ex}"[:200]
 
 
-def build(o, gam, cls=None, **extra):
+def build(o, gam, cls=None, unsorted_flag=None, **extra):
     from score_analysis import Scores
     cls = cls or Scores
     pos, neg = gam.arr(o["pos"]), gam.arr(o["neg"])
+    if unsorted_flag is not None:
+        # the data handed over in descending order, is_sorted given as a falsy value that is not the
+        # Python singleton False (a NumPy bool, as np.all(np.diff(x) >= 0) returns, or 0)
+        pos, neg = pos[::-1].copy(), neg[::-1].copy()
+        extra = dict(extra, is_sorted=unsorted_flag)
     if gam.name == "half_mixed":
         # integer-typed positives next to float negatives (possible when every positive is integral)
         if len(pos) and np.all(pos == np.round(pos)):
@@ -128,6 +133,24 @@ def set_config_event(ev, s, o, gam, h=1, k=0):
         e["post"] = alpha_obj(s, inv_map(gam, min(vals) - 2, max(vals) + 3) if max(vals) > 35 or min(vals) < -35
                               else inv_map(gam))
         return dict(o, sc=sc, ec=ec)
+    except Exception as ex:  # noqa
+        e["exc"] = exc_str(ex)
+        return None
+
+
+def shift_event(ev, s, o, gam, d=2, h=1):
+    """History step: a constant is added to every score IN PLACE (the arrays keep their identity and
+    dtype).  Only for affine value maps.  Returns the new abstract object (or None)."""
+    e = ev("ShiftScores", h=h, d=d, post=dict(EMPTY_POST))
+    try:
+        delta = float(gam(d)) - float(gam(0))
+        for arr_ in (s.pos, s.neg):
+            arr_ += np.asarray(delta).astype(arr_.dtype)
+        o2 = dict(o, pos=[v + d for v in o["pos"]], neg=[v + d for v in o["neg"]])
+        vals = list(o2["pos"]) + list(o2["neg"]) + [0]
+        e["post"] = alpha_obj(s, inv_map(gam, min(vals) - 2, max(vals) + 3) if max(vals) > 35 or min(vals) < -35
+                              else inv_map(gam))
+        return o2
     except Exception as ex:  # noqa
         e["exc"] = exc_str(ex)
         return None
